@@ -341,7 +341,8 @@ def show(recs):
 def oracle(ctx, verb, zs, ss, args, inp, out):
     """property evaluated on the implementation's output; returns a violation dict or None"""
     exp = ref(verb, zs, ss, inp)
-    base = {"argv": ["mlr"] + IOFLAGS + args, "input": show(inp), "observed": show(out)}
+    base = {"argv": ["mlr"] + IOFLAGS + args, "input": show(inp), "observed": show(out),
+            "case": {"verb": verb, "zs": zs, "ss": [[b.decode("latin1") for b in x] for x in ss], "args": args}}
     fs = ss[0] if ss and verb in (1, 2, 3, 8, 16) else (ss[1] if verb == 13 else [])
     cls = "grouping-key-comma-collision" if fs and has_collision(fs, inp) else "other"
     if exp is not None:
@@ -492,15 +493,14 @@ def run(ctx):
                                             "argv": args, "input": show(inp), "observed": show(out), "zargs": zs}, found_input=False) else 0
         if reported >= 3:
             break
-    seen_cls = set()
+    seen_cls = {}
     for v in oracle_bad:
-        key = (v.get("class"), v.get("law"))
-        if key in seen_cls and v.get("class") != "other":
+        key = (v.get("class"), v.get("law") if v.get("class") == "other" else "")
+        seen_cls[key] = seen_cls.get(key, 0) + 1
+        if seen_cls[key] > (2 if v.get("class") == "other" else 1):
             continue
-        seen_cls.add(key)
-        if len(seen_cls) > 6:
-            break
         ctx.violation(v)
+    ctx.cov["oracle_findings"] = {"%s | %s" % k: n for k, n in seen_cls.items()}
 
 
 def cli_tie(ctx, cases, obs):
@@ -574,5 +574,12 @@ def replay(ctx, path):
     got = show(dec(out))
     print("replay: argv=%s\n input=%s\n observed=%s\n previously=%s" % (argv, obj["input"], got, obj.get("observed")))
     ctx.count(("replay", argv, obj["input"]))
-    if got == obj.get("observed"):
+    if st != 0:
+        ctx.violation(dict(obj, replayed=True, status=st))
+    elif "case" in obj and obj["case"]["verb"] not in (14, 15, 16):
+        c = obj["case"]
+        v = oracle(ctx, c["verb"], c["zs"], [[x.encode("latin1") for x in y] for y in c["ss"]], c["args"], inp, dec(out))
+        if v:
+            ctx.violation(dict(v, replayed=True))
+    elif got == obj.get("observed"):
         ctx.violation(dict(obj, replayed=True))
